@@ -1,6 +1,7 @@
 import SlotVerif.Model.Progress
 import SlotVerif.Proofs.Spec
 import SlotVerif.Props.C08
+import SlotVerif.Proofs.UfWrite
 /-!
 # C13 — Equalities are never lost and old handles stay valid
 
@@ -113,5 +114,37 @@ theorem handle_survives_compression {s : Snap} (hok : Snap.ufOK s = true) {ids :
     (h : Snap.compressAll s.uf ids = some uf') {a b : AppId} (ha : Snap.find s a = some b) :
     Snap.find { s with uf := uf' } a = some b :=
   SV.C08.compress_preserves_find hok h ha
+
+/-! ### writes to the union-find (session 6): `unionfind_set` as made by `alloc_eclass`, `move_to`,
+`record_redundancy_witness` — model `Snap.ufSet` / `Snap.validWrite`, tied to the code by the write log of every
+operation (hook `verif::uf_write`, protocol `ufw`) -/
+
+/-- one valid write: every id that resolved to `r` still resolves; to the same leader unless that leader is the one
+overwritten, then to the written entry's leader; an untouched resolution is literally unchanged; the retained arguments
+only shrink -/
+theorem handle_survives_write {uf : List AppId} (hw : Snap.UfWF' uf) (hl : Snap.LeaderId' uf) {i : Nat} {e : AppId}
+    (hv : Snap.validWrite uf i e = true) {f j : Nat} {r : AppId} (h : Snap.ufGetL uf f j = some r) :
+    ∃ r', Snap.ufGetL (Snap.ufSet uf i e) (f + 1) j = some r' ∧
+      (r'.id = if r.id = i then e.id else r.id) ∧ (r.id ≠ i → r' = r) ∧
+      (∀ v ∈ SlotMap.valuesVec r'.m, v ∈ SlotMap.valuesVec r.m) :=
+  Snap.write_redirect hw hl hv h
+
+/-- **for every sequence of valid writes** (any number of allocations, merges and shrinks in any order): the table
+invariants are kept, every handle that could be canonicalised can still be canonicalised and keeps a subset of its
+arguments ("a class's slot set only shrinks"), and two ids in one class stay in one class ("equalities are never
+lost", at the level of the union-find) -/
+theorem handles_survive_all_writes (ws : List (Nat × AppId)) (uf uf' : List AppId) (hw : Snap.UfWF' uf)
+    (hl : Snap.LeaderId' uf) (h : Snap.applyWrites uf ws = some uf') :
+    (Snap.UfWF' uf' ∧ Snap.LeaderId' uf') ∧
+    (∀ j r, Snap.Resolves uf j r → ∃ r', Snap.Resolves uf' j r' ∧
+      ∀ v ∈ SlotMap.valuesVec r'.m, v ∈ SlotMap.valuesVec r.m) ∧
+    (∀ j k r q, Snap.Resolves uf j r → Snap.Resolves uf k q → r.id = q.id →
+      ∃ r' q', Snap.Resolves uf' j r' ∧ Snap.Resolves uf' k q' ∧ r'.id = q'.id) :=
+  Snap.writes_monotone ws uf uf' hw hl h
+
+/-- non-vacuity: two classes are allocated, class 1 (slots 0, 4) is merged into class 0 (slots 8, 12) with the arguments
+exchanged, then class 0 loses slot 12; all four writes pass the guards -/
+example : (Snap.applyWrites [] [(0, ⟨0, [(8, 8), (12, 12)]⟩), (1, ⟨1, [(0, 0), (4, 4)]⟩),
+    (1, ⟨0, [(8, 4), (12, 0)]⟩), (0, ⟨0, [(8, 8)]⟩)]).isSome = true := by decide
 
 end SV.C13
